@@ -25,6 +25,12 @@ CLAIMS['C01'] = ('proof', 'Lean 4 theorems (address arithmetic, abstract pack/Al
     'route map, every destination block, source intactness, refusals. Bridge between the executable direct step and the abstract step theorem is by '
     'per-case evaluation of the model (holds flag), not a theorem: stated in DESIGN.md.',
     NOTE_COMMON, 'DESIGN.md 4/C01')
+CLAIMS['C04'] = ('proof', 'Lean 4 refinement theorem (induction over operation histories) on a state-machine model of Grid + exact correspondence with real Grid objects',
+    'grid_refines_spec: for every history of set-layout/write/save/restore/free (any length) the buffer-index state machine of grid.py refuses exactly '
+    'what a single global array with an optional saved copy refuses, and the data block always holds the spec field in the spec layout; a held save is never '
+    'scratch/destination of a transpose nor overwritten (step_refines, init_related, history_behaves_like_global_array). The model is compared after every '
+    'operation with real Grid objects over LayoutHandler and over the driver\'s LayoutSwapper on 1-6 simulated ranks (refusal, currentLayout, index triple, '
+    'notSaved, visible field).', NOTE_COMMON + ' The transpose contract (C01/C03) enters as the meaning of LayoutManager.transpose.', 'DESIGN.md 4/C04')
 PENDING = {
 }
 ALL = ['C%02d' % i for i in range(1, 21)]
